@@ -5,7 +5,8 @@
     model runs on zero bytes of those sizes (the byte-for-byte comparison on
     real data is the harness's oracle). *)
 From Coq Require Import List NArith Bool.
-From Verif Require Import Lib.Bytes Sni.Wire Sni.Hello Sni.Stream Sni.StreamClose Gen.StreamConsts.
+From Verif Require Import Lib.Bytes Sni.Wire Sni.Hello Sni.Handover Sni.Stream Sni.StreamClose Sni.SideRead
+  Gen.StreamConsts Gen.HelloConsts.
 Import ListNotations.
 Local Open Scope N_scope.
 
@@ -58,13 +59,32 @@ Fixpoint later_reads (n : nat) (s : sstate) : list N :=
       end_code e :: match e with SBlock => [] | _ => later_reads n' s' end
   end.
 
+Definition rres_code (e : rres) : N :=
+  match e with RNil => 0 | REofS => 1 | RErrS => 2 | RBlockS => 3 end.
+
+(** Reads issued after the first end, with a 4096-byte buffer: 0 data, 1 eof, 2 error, 3 block *)
+Fixpoint later_reads_f (n : nat) (s : rstate) : list N :=
+  match n with
+  | O => []
+  | S n' =>
+      let '(got, e, s', _) := side_read_f 4096 [] s in
+      rres_code e :: match e with RBlockS => [] | _ => later_reads_f n' s' end
+  end.
+
 Inductive scase :=
 | KWrite (sizes : list N) (close_write : bool) (ns : list N) (frames : list (N * N))
 | KRead (script : list msg) (bufs : list N) (total : N) (ended : N) (later : list N)
 | KReply (cap len : N) (ok : bool) (n : N) (aliased : bool)
 | KPipe (writes reads chunks : list N)
 | KWriteFail (sizes : list N) (ns : list N) (failed : bool)
-| KClose (mode : N) (client_closes : bool) (first_ended later_ended : bool).
+| KClose (mode : N) (client_closes : bool) (first_ended later_ended : bool)
+(** the front stage alone: TLSHelloConn on a scripted connection; per run the
+    caller buffer size, the sizes the Reads returned, and how they ended
+    (1 = io.EOF) *)
+| KStage (input : bytes) (sched : list N) (runs : list (N * list N * N))
+(** sideConn.Read over messages that arrive as fragments (zero-length
+    messages and fragments, a message cut by the loss of the connection) *)
+| KReadF (script : list fmsg) (bufs : list N) (total : N) (ended : N) (later : list N).
 
 Definition check_case (c : scase) : bool :=
   match c with
@@ -110,6 +130,24 @@ Definition check_case (c : scase) : bool :=
   | KPipe writes reads chunks =>
       let '(outs, _) := pipe_reads reads (map zeros writes) in
       list_eqb N.eqb (map lenN outs) chunks
+  | KStage input sched runs =>
+      match sniff gen_hello_buf_size (br_new (mkConn input sched false)) with
+      | Ok (_, b1) =>
+          forallb (fun run : N * list N * N =>
+                     let '(m, chunks, ended) := run in
+                     match hc_reads gen_read_handover gen_hello_buf_size
+                                    (repeat m (List.length chunks)) (hc_start 0 b1) with
+                     | Some (cs, e, _) =>
+                         list_eqb N.eqb (map lenN cs) chunks &&
+                         (match e with None => 0 | Some REof => 1 | Some _ => 7 end =? ended)
+                     | None => false
+                     end) runs
+      | _ => false
+      end
+  | KReadF script bufs total ended later =>
+      let '(outs, e, s') := side_reads_f bufs [] (mkR None script) in
+      (sumN (map lenN outs) =? total) && (rres_code e =? ended) &&
+      list_eqb N.eqb (later_reads_f (List.length later) s') later
   | KClose mode client_closes first_ended later_ended =>
       let p := corr_policy mode in
       let s0 := fire p (if client_closes then EClientClose else EAppClose) cinit in
